@@ -15,7 +15,7 @@ import ast
 from ..core import AnalysisError, norm, loc, walk_no_nested, attr_chain, call_name, kwarg
 from ..flags import check_flag_scope
 from ..core import Unfoldable, func_params
-from ..normalize import inline, local_env, expand, canon, ctext, conjuncts, eval_test, Unknown, _enclosing
+from ..normalize import inline, local_env, expand, canon, ctext, conjuncts, eval_test, Unknown, _enclosing, branch_values, merge_outcomes
 from .. import flow
 
 CBM = 'fim.graph.resources.neo4j_cbm:Neo4jCBMGraph'
@@ -47,6 +47,13 @@ def run(prog, rep):
     if not all((ma, um, und)):
         raise AnalysisError('merge_adm / unmerge_adm / _update_node_delegations vanished')
     src_param = [a.arg for a in ma.args.kwonlyargs + ma.args.args if a.arg != 'self'][0]
+
+    def fold_name(e):
+        try:
+            v_ = prog.const_eval(e, mod, cbm) if e is not None else None
+            return v_ if isinstance(v_, str) else None
+        except Exception:
+            return None
 
     # ---- R1 ----
     temp_vars = set()
@@ -112,6 +119,28 @@ def run(prog, rep):
             rep.violation('R2', loc(mod, c), 'Neo4jCBMGraph.merge_adm', f'{k} keyed by {vt}',
                           f'the {k} must record the id of the contributing model ({real}); a temporary or different id makes '
                           f'unmerge unable to find what this model contributed')
+    # the contributor list that is extended is the one just read from the merged node, and that one is written back
+    mloops = [l for l in walk_no_nested(ma) if isinstance(l, ast.For) and any(isinstance(c, ast.Call) and call_name(c) == 'merge_nodes' for c in ast.walk(l))]
+    if mloops:
+        ml = mloops[0]
+        apps = [c for c in ast.walk(ml) if isinstance(c, ast.Call) and call_name(c) == 'append' and isinstance(c.func.value, ast.Attribute)
+                and c.func.value.attr == 'adm_graph_ids' and isinstance(c.func.value.value, ast.Name)]
+        decoded_here = {n.targets[0].id for n in ast.walk(ml) if isinstance(n, ast.Assign) and isinstance(n.targets[0], ast.Name) and
+                        isinstance(n.value, ast.Call) and call_name(n.value) == 'from_json' and 'StructuralInfo' in ast.unparse(n.value.func)}
+        written = [c for c in ast.walk(ml) if isinstance(c, ast.Call) and call_name(c) == 'update_node_property' and
+                   fold_name(kwarg(c, 'prop_name')) == 'StructuralInfo']
+        for c in apps:
+            v = c.func.value.value.id
+            wb = [w_ for w_ in written if isinstance(kwarg(w_, 'prop_val'), ast.Call) and call_name(kwarg(w_, 'prop_val')) == 'to_json' and
+                  isinstance(kwarg(w_, 'prop_val').func.value, ast.Name) and kwarg(w_, 'prop_val').func.value.id == v]
+            rep.instance('R2', f'merge_adm: contributor appended to {v}.adm_graph_ids; {v} decoded in this iteration: {v in decoded_here}; written back: {bool(wb)}')
+            if v not in decoded_here or not wb:
+                rep.violation('R2', loc(mod, c), 'Neo4jCBMGraph.merge_adm', f'contributor appended to {v}, which is not the structural info read from this node',
+                              f'the contributor list extended for a merged node ({v}.adm_graph_ids) is not the one decoded from that node in this '
+                              f'iteration (or is not the one written back): the node records the incoming model several times and loses the '
+                              f'models that contributed to it before, so unmerge can no longer tell who contributed what')
+        if not apps:
+            rep.violation('R2', loc(mod, ml), 'Neo4jCBMGraph.merge_adm', 'contributor list of merged nodes not extended', 'merged nodes must record the contributing model')
     for k in ('delegation key', 'structural info of re-homed nodes', 'contributor list of merged nodes'):
         if k not in kinds:
             rep.violation('R2', loc(mod, ma), 'Neo4jCBMGraph.merge_adm', f'{k} not recorded', f'merge no longer records the {k}')
@@ -248,14 +277,48 @@ def run(prog, rep):
     rep.instance('R6', f'unmerge: {norm(rm[0]) if rm else "?"}')
     if not rm or ast.unparse(rm[0].args[0]) != gid:
         rep.violation('R6', loc(mod, um), 'Neo4jCBMGraph.unmerge_adm', 'contributor not removed from the list', 'unmerge must remove the given model id from each node\'s contributor list')
-    empt = [n for n in ast.walk(um) if isinstance(n, ast.If) and isinstance(n.test, ast.Compare) and 'len(si.adm_graph_ids)' in ast.unparse(n.test)]
-    rep.instance('R6', f'unmerge: {norm(empt[0].test) if empt else "?"} -> delete / else write back')
-    ok = empt and ast.unparse(empt[0].test).replace(' ', '') == 'len(si.adm_graph_ids)==0' and \
-        any(isinstance(c, ast.Call) and call_name(c) == 'append' for s in empt[0].body for c in ast.walk(s)) and \
-        any(isinstance(c, ast.Call) and call_name(c) == 'update_node_property' for s in empt[0].orelse for c in ast.walk(s))
+    umi = inline(prog, cbm, um)
+    uloops = [l for l in walk_no_nested(umi) if isinstance(l, ast.For) and any(isinstance(c, ast.Call) and call_name(c) == 'remove' and
+                                                                             'adm_graph_ids' in ast.unparse(c.func.value) for c in ast.walk(l))]
+    if not uloops:
+        raise AnalysisError('unmerge_adm: loop over the nodes of the combined model not found')
+    ul = uloops[0]
+    si_vars = tuple(n.targets[0].id for n in ast.walk(ul) if isinstance(n, ast.Assign) and isinstance(n.targets[0], ast.Name) and isinstance(n.value, ast.Call)
+                    and call_name(n.value) == 'from_json' and 'StructuralInfo' in ast.unparse(n.value.func))
+
+    def u_sink(st):
+        if isinstance(st, ast.Expr) and isinstance(st.value, ast.Call):
+            c = st.value
+            if call_name(c) == 'append' and isinstance(c.func.value, ast.Name):
+                return (c.func.value, ast.Constant(value='collect-for-deletion'))
+            if call_name(c) == 'update_node_property':
+                pn = kwarg(c, 'prop_name')
+                return (pn, ast.Constant(value='write:' + (fold_name(pn) or 'delegations')))
+        return None
+    try:
+        uouts = merge_outcomes(branch_values(ul.body, u_sink, follow_loops=True, opaque=si_vars))
+    except Unknown as u:
+        raise AnalysisError(f'unmerge_adm not analysable: {u}')
+    ids_txt = [f'{v}.adm_graph_ids' for v in si_vars]
+    def conds_of(kind):
+        return [set(o.conds) for o in uouts if o.vtext == repr(kind)]
+    dele = conds_of('collect-for-deletion')
+    wsi = conds_of('write:StructuralInfo')
+    wdel = [set(o.conds) for o in uouts if o.vtext.startswith("'write:") and 'StructuralInfo' not in o.vtext]
+    rep.instance('R6', f'unmerge: deleted under {[sorted(c) for c in dele]}; contributor list written back under {[sorted(c) for c in wsi]}')
+    ok = bool(dele) and bool(wsi) and all(any(f'{gid} in {i}' in c for i in ids_txt) and any(f'not {i}' in c for i in ids_txt) for c in dele) and \
+        all(any(f'{gid} in {i}' in c for i in ids_txt) and any(i in c for i in ids_txt) for c in wsi)
     if not ok:
         rep.violation('R6', loc(mod, um), 'Neo4jCBMGraph.unmerge_adm', 'empty-list handling',
                       'a node whose contributor list becomes empty must be deleted; otherwise the shortened list must be written back')
+    rep.instance('R6', f'unmerge: delegation clean-up reached under {[sorted(c) for c in wdel]}')
+    for c in wdel:
+        dep = [t for t in c if any(t in (f'{gid} in {i}', f'{gid} not in {i}', i, f'not {i}') for i in ids_txt)]
+        if dep:
+            rep.violation('R6', loc(mod, um), 'Neo4jCBMGraph.unmerge_adm', f'delegation clean-up depends on {sorted(dep)}',
+                          'the delegations of the unmerged model are only removed from a node under a condition on its contributor list: on '
+                          'nodes that stay in the combined model (other models still contribute) the delegation entry of the unmerged model '
+                          'is left behind, so unmerge is not the inverse of merge')
     dn = [c for c in ast.walk(um) if isinstance(c, ast.Call) and call_name(c) == 'delete_node']
     rep.instance('R6', f'unmerge: deletes {norm(dn[0]._parent._parent.iter) if dn and isinstance(dn[0]._parent._parent, ast.For) else "?"}')
     if not dn or not isinstance(dn[0]._parent._parent, ast.For) or ast.unparse(dn[0]._parent._parent.iter) != 'delete_nodes':
